@@ -201,7 +201,7 @@ let run_case (line : string) =
             | None -> ()
             | Some m ->
               let it = iter_of m in
-              Buffer.add_string b (Printf.sprintf "%d.%d:%d:%d:%d:%d:%d:[%s]:%d:%d:%d:[%s];" fam k
+              Buffer.add_string b (Printf.sprintf "%d.%d:%d:%d:%d:%d:%d:[%s]:%d:%d:%d:[%s]:%d;" fam k
                                      (match m.cm_val with Some _ -> 1 | None -> 0)
                                      (int_of_n m.cm_verified) (int_of_n m.cm_changed)
                                      (int_of_n m.cm_dur) (if m.cm_untracked then 1 else 0)
@@ -210,8 +210,23 @@ let run_case (line : string) =
                                      (int_of_n (stamp_iteration it)) (int_of_n (stamp_ccount it))
                                      (String.concat "," (Stdlib.List.map (fun ((hf, hk), hit) ->
                                           Printf.sprintf "%d.%d@%d" (int_of_n hf) (int_of_n hk)
-                                            (int_of_n (stamp_iteration hit))) (raw_heads m))))
+                                            (int_of_n (stamp_iteration hit))) (raw_heads m)))
+                                     (if conv_of m then 1 else 0))
           done done;
+        (* hook H7 fields: sync table entries and the transferred map, sorted as strings *)
+        let sy = ref [] in
+        for fam = 0 to nfam - 1 do for k = 0 to nk - 1 do
+            match s'.c_sync (n_of_int fam, n_of_int k) with
+            | None -> ()
+            | Some y ->
+              sy := Printf.sprintf "%d.%d:%s:%d:%d:%d;" fam k (if y.sy_trans then "t" else "m")
+                  (if y.sy_wait then 1 else 0) (if y.sy_target then 1 else 0) (if y.sy_twice then 1 else 0) :: !sy
+          done done;
+        Stdlib.List.iter (fun ((f1, k1), (f2, k2)) ->
+            sy := Printf.sprintf "%d.%d->%d.%d:tr;" (int_of_n f1) (int_of_n k1) (int_of_n f2) (int_of_n k2) :: !sy)
+          s'.c_trans;
+        Buffer.add_string b " sync=";
+        Stdlib.List.iter (Buffer.add_string b) (Stdlib.List.sort compare !sy);
         print_endline (Buffer.contents b))
       ops
   | _ -> failwith "case expected"
